@@ -964,9 +964,25 @@ func c20DirRun(c *mc.Ctx) {
 	if !c.Quick() {
 		names = c20NamesThorough
 	}
-	i := c.Free(len(names), "name")
-	chosen := []c20Name{names[i]}
-	if !c.Quick() {
+	i := c.Free(len(names)+2, "name")
+	var chosen []c20Name
+	if i >= len(names) {
+		// a tree with many files: the number of exchanges crosses the one-byte CBOR head of the
+		// index map and the responses array (24), thorough also the two-byte one (256)
+		n := 30
+		if i == len(names)+1 {
+			n = 23
+			if !c.Quick() {
+				n = 260
+			}
+		}
+		for k := 0; k < n; k++ {
+			chosen = append(chosen, c20Name{fmt.Sprintf("m%d/f%03d.txt", k%3, k), 1 + k%40})
+		}
+	} else {
+		chosen = []c20Name{names[i]}
+	}
+	if !c.Quick() && i < len(names) {
 		if k := c.Free(len(names)-i, "second"); k > 0 {
 			chosen = append(chosen, names[i+k])
 		}
@@ -983,6 +999,9 @@ func c20DirRun(c *mc.Ctx) {
 	}
 	sort.SliceStable(nl, func(a, b int) bool { return special(nl[a]) && !special(nl[b]) })
 	key := fmt.Sprintf("C20/dir:name=%s:%s:base=%s", strings.Join(nl, "+"), cfg.ver, c20BaseName(cfg.base))
+	if i >= len(names) {
+		key = fmt.Sprintf("C20/dir:name=%d-plain-files:%s:base=%s", len(chosen), cfg.ver, c20BaseName(cfg.base))
+	}
 	if len(chosen) == 2 && c20PathConflict(chosen[0].rel, chosen[1].rel) {
 		c.Outcome("skipped: the two names cannot coexist (file vs directory)")
 		return
